@@ -52,18 +52,45 @@ def flatten_test(ctx, g):
         if not loc:
             break
         r = map_term(r, lambda x: norm(d.def_origin(x), g) if x[0] == "local" and norm(d.def_origin(x), g) != x else None)
-    calls = [x[1].split("::")[-1] for x in subterms(r) if x[0] == "call"]
-    sk = [x for x in subterms(r) if is_call(x, "Iterator::skip")]
-    oks = bool(sk) and all(strip(x[2][1]) == ("int", 1) for x in sk) and any(is_call(x, "iter::successors") for x in subterms(r)) and any(is_call(x, "skip_while") for x in subterms(r))
-    seed_ok = any(is_call(x, "iter::successors") and strip(x[2][0]) == ("agg", "adt:std::option::Option::Some", (("agg", "tuple", (("int", 0), ("int", 0))),)) for x in subterms(r))
-    sw_ok = False
-    for bi, t in d.calls("Iterator::skip_while"):
-        res = closure_result(ctx.facts, d.origin(t["args"][1]), g)
-        if res is not None and strip(res)[0] == "binop" and strip(res)[1] == "Ne" and ("int", 0) in strip(res)[2:]:
-            sw_ok = True
-    ctx.ob("T9-flattens-all", d.name, "first i >= 1 with w^i fixing row 0", "ok" if oks and seed_ok and sw_ok else "violation",
-           "degree = index of the first return to row 0 after skipping the start (0, 0)" if oks and seed_ok and sw_ok else
-           "degree() is not `successors(Some((0, 0)), apply w).skip(1).skip_while(row != 0).next()` (skip 1: %s, start (0, 0): %s, skip_while row != 0: %s)" % (oks, seed_ok, sw_ok))
+    # the pipeline after successors(..) is EVALUATED on model sequences: a word of order k in a table with N = 6 rows returns to row 0 exactly at
+    # the exponents that are multiples of k; the answer must be k for every k in 1..=N (an element's order can equal the number of rows)
+    succ = [x for x in subterms(r) if is_call(x, "iter::successors")]
+    bad = None
+    if len(succ) != 1:
+        bad = "degree() is not built on one successors(..) sequence"
+    else:
+        sx = succ[0]
+        seed_ok = strip(sx[2][0]) == ("agg", "adt:std::option::Option::Some", (("agg", "tuple", (("int", 0), ("int", 0))),))
+        step = apply_closure(ctx.facts, sx[2][1], [("agg", "tuple", (("int", 7), ("local", -1, "row")))], g)
+        step = simplify_proj(step) if step is not None else None
+        okstep = False
+        if step is not None and strip(step)[0] == "agg" and strip(step)[1].endswith("Option::Some"):
+            tup = strip(strip(step)[2][0])
+            if tup[0] == "agg" and len(tup[2]) == 2 and eval_term_env(unov_term(fold_std_ops(tup[2][0])), {}) == 8:
+                fo = strip(tup[2][1])
+                if is_call(fo, "Iterator::fold") and strip(fo[2][1]) == ("local", -1, "row") and contains(fo[2][0], lambda y: y == ("param", 2, d.debug.get(2, ""))):
+                    fr = closure_calls(ctx.facts, fo[2][2], g)
+                    okstep = any(c[0].endswith("CosetTable::get") and strip(c[2][0]) == ("param", 1, d.debug.get(1, "")) and strip(c[2][1]) == ("param", 2, "") or
+                                 (c[0].endswith("CosetTable::get") and strip(c[2][0]) == ("param", 1, d.debug.get(1, ""))) for c in fr)
+        if not seed_ok or not okstep:
+            bad = "the sequence is not (0, row 0), (1, row 0 . w), (2, row 0 . w^2), .. (start (0, 0): %s; step (i + 1, fold of ct.get over w from the previous row): %s)" % (seed_ok, okstep)
+        else:
+            pipe = map_term(r, lambda x: ("src",) if x == sx else None)
+            N = 6
+            ct_len = ("call", "fpgroups::cosets::CosetTable::len", (("param", 1, d.debug.get(1, "")),))
+            for k in range(1, N + 1):
+                src_items = (("agg", "tuple", (("int", i), ("int", i % k))) for i in range(0, 4 * N))
+                try:
+                    got = eval_pipeline(ctx.facts, pipe, g, src_items, {ct_len: N})
+                except PipelineError as e:
+                    bad = "the pipeline of degree() cannot be evaluated (%s)" % e
+                    break
+                if got != k:
+                    bad = "for a word of order %d in a table with %d rows degree() answers %s: %s" % (
+                        k, N, got, "the search stops before the exponent can reach the number of rows" if k == N else "not the smallest positive exponent that returns to row 0")
+                    break
+    ctx.ob("T9-flattens-all", d.name, "first i >= 1 with w^i fixing row 0", "ok" if not bad else "violation",
+           "degree = the first exponent >= 1 at which the word returns to row 0 (pipeline evaluated for orders 1..6 in a table of 6 rows)" if not bad else bad)
 
 
 def core_type_table(ctx, g):
